@@ -108,8 +108,10 @@ def _(c):
     c.requires("unit-nonzero", lambda f: Not(eq(f.self.unitMultiplier, 0)))
     c.modifies("self.offset")
     # C08 / G92: afterwards the logical position reads v and the native position is unchanged
-    c.ensures("C08.g92-rebase", lambda f: eq(A.n2l_current(f.self), f.a.offset), props=("C08",),
-              cases={"g92-changes-logical-position": lambda f: Not(eq(A.n2l_current(f.self), f.a.offset))})
+    c.ensures("C08.g92-rebase", lambda f: eq(A.n2l_current(f.self), val(f.a.offset)), props=("C08",),
+              cases={"g92-changes-logical-position": lambda f: Not(eq(A.n2l_current(f.self), val(f.a.offset)))})
+    c.ensures("native-position-kept", lambda f: eq(val(f.self.current), val(f.old.self.current)), props=("C08", "C01"))
+    c.use_modular()
 
 
 @contract("AxisPosition.AxisPosition.setHome")
